@@ -5,6 +5,7 @@ use crate::tok::*;
 use serde_json::{json, Value};
 use sqldatetime::Formatter;
 
+#[derive(Clone, Copy)]
 pub struct F<'a> {
     pub v: V,
     pub pic: &'a str,
@@ -12,8 +13,38 @@ pub struct F<'a> {
     pub f: &'a Formatter,
     /// go through the type's own `format(picture)` method + Display instead of `Formatter::format`
     pub via_display: bool,
-    /// history: first render the same value through Display into a sink that fails after this many bytes (-1 = no such step)
+    /// history: first render the same value through Display into a sink that fails after this many bytes (-1 = no such step);
+    /// -2 = the judged rendering goes into a sink whose `write_str` itself formats values with the library (a log writer
+    /// stamping every piece); -3 = first a rendering into a sink that panics (contained), then the judged rendering
     pub fail_cap: i32,
+}
+/// a sink that formats with the library inside `write_str`, then stores the piece
+struct Reentrant {
+    out: String,
+}
+impl std::fmt::Write for Reentrant {
+    fn write_str(&mut self, s: &str) -> std::fmt::Result {
+        use std::fmt::Write;
+        let d = sqldatetime::Date::try_from_ymd(2021, 3, 11).expect("date");
+        let mut tmp = String::new();
+        if let Ok(f) = Formatter::try_new("YYYY-MM-DD") {
+            let _ = f.format(d, &mut tmp);
+        }
+        if let Ok(x) = d.format("DD.MM.YYYY DAY") {
+            let _ = write!(tmp, "{}", x);
+        }
+        if tmp != "2021-03-1111.03.2021 THURSDAY" {
+            return Err(std::fmt::Error);
+        }
+        self.out.push_str(s);
+        Ok(())
+    }
+}
+struct PanickingFmt;
+impl std::fmt::Write for PanickingFmt {
+    fn write_str(&mut self, _: &str) -> std::fmt::Result {
+        panic!("the sink panics (harness, contained)")
+    }
 }
 /// a fmt sink with room for `cap` bytes
 struct LimitedFmt {
@@ -31,6 +62,15 @@ impl std::fmt::Write for LimitedFmt {
 }
 fn render_into_limited(st: &mut Stats, c: &F, lv: &LV) {
     use std::fmt::Write;
+    if c.fail_cap == -3 {
+        // caller code panics inside the sink; the panic is contained; the library must be usable afterwards
+        let (lv2, f2) = (*lv, c.f);
+        let _ = guard(move || {
+            let _ = lv2.format_into(f2, &mut PanickingFmt);
+        });
+        st.bump("renderings into a panicking sink (contained)");
+        return;
+    }
     let mut sink = LimitedFmt { cap: c.fail_cap.max(0) as usize };
     macro_rules! via {
         ($op:expr, $x:expr) => {{
@@ -94,6 +134,12 @@ fn pic_class(toks: &[Tok]) -> &'static str {
 
 fn lib_format(st: &mut Stats, c: &F, lv: &LV) -> Result<String, String> {
     use std::fmt::Write;
+    if c.fail_cap == -2 {
+        let mut sink = Reentrant { out: String::new() };
+        st.bump("renderings into a sink that re-enters the library");
+        st.op(Op::F_format);
+        return lv.format_into(c.f, &mut sink).map(|_| sink.out);
+    }
     if !c.via_display {
         st.op(Op::F_format);
         return lv.format_with(c.f);
@@ -126,7 +172,7 @@ pub fn check(st: &mut Stats, c: &F) {
             return;
         }
     };
-    if c.fail_cap >= 0 {
+    if c.fail_cap >= 0 || c.fail_cap == -3 {
         render_into_limited(st, c, &lv);
     }
     let real = lib_format(st, c, &lv);
@@ -484,7 +530,15 @@ pub fn run(ctx: &Ctx, st: &mut Stats) {
     let n = ctx.tier.pick(400, 600_000, ctx.big(12_000_000, 80_000_000));
     ctx.par(st, "(e) random composite pictures x random values, all six types", false, 0, n, |st, _, rng| {
         let ty = *rng.pick(&ALL_TY);
-        let p = match rand_picture(st, rng, ty, true) {
+        let wk = if rng.chance(1, 6) {
+            // a well-known whole picture, re-spelled (letter case per token, blank runs lengthened)
+            let base = *rng.pick(crate::spell::WELL_KNOWN);
+            let v = crate::spell::vary_picture(rng, base);
+            pic(st, &v, Some("C04/documented-token-picture-rejected"))
+        } else {
+            None
+        };
+        let p = match wk.or_else(|| rand_picture(st, rng, ty, true)) {
             Some(p) => p,
             None => {
                 st.skipped += 1;
@@ -494,8 +548,15 @@ pub fn run(ctx: &Ctx, st: &mut Stats) {
         let v = rand_value(rng, ty);
         let via_display = rng.chance(1, 4);
         let h = mix(hash64(p.text.as_bytes()), hash64(v.show().as_bytes()));
-        let fail_cap = if h >> 20 & 7 == 0 { (h >> 24 & 31) as i32 } else { -1 };
-        st.eval_h(h, &F { v, pic: &p.text, toks: &p.toks, f: &p.f, via_display: via_display || fail_cap >= 0, fail_cap }, check);
+        let fail_cap = match h >> 20 & 15 {
+            0 | 1 => (h >> 24 & 31) as i32,
+            2 => -2,
+            3 => -3,
+            _ => -1,
+        };
+        let c = F { v, pic: &p.text, toks: &p.toks, f: &p.f, via_display: via_display || fail_cap >= 0, fail_cap };
+        let anchors: Vec<i64> = v.to_lib().and_then(|x| x.day_number()).into_iter().collect();
+        crate::primers::eval_sched(st, rng, h, &c, &anchors, 0, &[], check);
     });
     let _ = civil_from_days;
 }
